@@ -292,12 +292,14 @@ fn fnv(bytes: &[u8], mut h: u64) -> u64 {
     h
 }
 
-/// (outer stamp, [(issued stamp, digest of what carries it)]) — used only to label a violating case
-/// whose operands carry one and the same stamp on different payloads.
+/// Stamps of a value — used only to label a violating case whose operands carry one and the same
+/// stamp on different payloads (a stamp issued twice).
 struct Stamps {
     outer: (u64, u64),
+    kind: u8,
     /// digest of the canonical serialization of the CRDT content
     content: u64,
+    /// (issued stamp, digest of the field name and payload it was issued for)
     inner: Vec<((u64, u64), u64)>,
 }
 
@@ -323,13 +325,20 @@ fn stamps_of(v: &RV) -> Stamps {
         _ => {}
     }
     inner.sort();
-    Stamps { outer: key(&v.timestamp), content: fnv(canon(&v.crdt).as_bytes(), 0xcbf29ce484222325), inner }
+    Stamps {
+        outer: key(&v.timestamp),
+        kind: kind(v),
+        content: fnv(canon(&v.crdt).as_bytes(), 0xcbf29ce484222325),
+        inner,
+    }
 }
 
-/// Two different values carry an equal stamp on different payloads: equal outer stamps, or one
-/// issued (register / field) stamp on different contents.
+/// Two values carry one stamp on different payloads: a register / field stamp that both contain
+/// with different contents, or equal outer stamps on values of different kinds. (Equal outer
+/// stamps on two values of the same kind are ordinary: a value and its merge with older values
+/// share the outer stamp.)
 fn equal_stamps(a: &Stamps, b: &Stamps) -> bool {
-    if a.outer == b.outer && a.content != b.content {
+    if a.outer == b.outer && a.kind != b.kind {
         return true;
     }
     a.inner.iter().any(|(s, d)| b.inner.iter().any(|(t, e)| s == t && d != e))
